@@ -71,6 +71,35 @@ def do_chunk(chunk):
             idx.append((ci, vk, h, hs))
     r2 = rt.run_resilient(w, setup2, lines2) if lines2 else []
     w.run(["preerrno 0"], 30)
+    # phase 3: the calling pattern crypt.h suggests - the phrase lives in data->input, the hash just produced is
+    # passed back as the setting, and nothing re-fills the object between the two calls
+    lines3, idx3 = [], []
+    for ci, (c, r) in enumerate(zip(chunk, r1)):
+        m, form, p, s, nz = c
+        h = rt.hash_of(r) if isinstance(r, dict) else None
+        if h is None or len(p) >= 512 or len(s) >= 384 or ci % 3:
+            continue
+        e = ("crypt_rn", "crypt_r")[ci // 3 % 2]
+        lines3.append(rt.crypt_line(e, 0, p, s, "=", "i"))
+        idx3.append(None)
+        lines3.append(rt.crypt_line(e, 0, p, h, "=", "k"))
+        idx3.append((ci, h))
+    r3 = rt.run_resilient(w, setup, lines3) if lines3 else []
+    for k, (ix, r) in enumerate(zip(idx3, r3)):
+        if ix is None or not isinstance(r, dict) or not isinstance(r3[k - 1], dict):
+            continue
+        ci, h = ix
+        m, form, p, s, nz = chunk[ci]
+        acc.count("in_object_round_trips")
+        h1, h2 = rt.hash_of(r3[k - 1]), rt.hash_of(r)
+        if h1 != h or h2 != h:
+            acc.violation("%s/rehash-phrase-kept-in-object/%s" % (PID, m),
+                          "method=%s phrase=%s kept in data->input: first call (setting %r) gives %r, the second call on the "
+                          "same object with that hash as the setting gives %r; with separate buffers H=%r" % (
+                              m, p.hex()[:80], s, h1, h2, h),
+                          rt.replay_obj(FL, setup + lines3[k - 1:k + 1], "second result must equal first"))
+        else:
+            acc.cls((m, "in-object"))
     for (ci, vk, h, hs), r, ln in zip(idx, r2, lines2):
         m, form, p, s, nz = chunk[ci]
         first = rt.crypt_line("crypt_rn", 0, p, s)
@@ -111,6 +140,7 @@ def run(tier):
                 "variant) cells in which a re-hash was compared",
         "triples_accepted": int(a.n.get("accepted", 0)),
         "rehash_comparisons": int(a.n.get("rehashes", 0)),
+        "round_trips_with_the_phrase_kept_in_the_object": int(a.n.get("in_object_round_trips", 0)),
         "rejected_by_library": int(a.n.get("rejected", 0)),
         "rejected_per_method": per_method,
         "skipped_expensive": skipped,
